@@ -130,6 +130,7 @@ package updater
 //@   at call filepath.Join#1 assert len(arg0) == 2 && arg0[0] == tmp
 //@   at after filepath.Join#1 ghost j = ret0
 //@   at call copyFromZipArchive assert arg1 == j
+//@   at call copyFromZipArchive assert inside(tmp, arg1)
 //@   at call os.Rename assert arg0 == tmp && arg1 == dest
 
 //@ func copyFromZipArchive
@@ -137,3 +138,12 @@ package updater
 //@   modifies *
 //@   at call os.OpenFile assert arg0 == dstPath
 //@   at call os.Mkdir assert arg0 == dstPath
+
+// ---- C18: names taken from outside never reach files outside the component's directory
+
+// ScanStorage only walks a root inside the storage directory
+//@ func (*ResourceRegistry).ScanStorage
+//@   requires reg != nil && reg.storageDir != nil && reg.tmpDir != nil && isClean(reg.storageDir.Path)
+//@   nopanic off
+//@   modifies *
+//@   at call filepath.Walk assert inside(reg.storageDir.Path, arg0)
